@@ -33,7 +33,7 @@ pub fn cross(ctx: &mut Ctx) {
     let mut spec = scen::gen_compress_spec(true, false);
     spec.metadata = scen::cli_safe_metadata(&spec.metadata);
     spec.verbose = 0;
-    let max_len = if spec.comp.expensive() { spec.cfg.expected_avg().saturating_mul(16).max(64) } else { 64 * 1024 };
+    let max_len = gen::len_cap(spec.comp, &spec.cfg, 64 * 1024);
     let (_, data) = gen::gen_source(&spec.cfg, max_len);
     scen::put_file("src.bin", &data);
     scen::set_stdin(None);
